@@ -89,14 +89,7 @@ def run(tier, seed, ck=None):
             ck.inconclusive.append('solver counterexample at positions %s did not reproduce: %s' % (bad[:16], out[-300:]))
     if own:
         from props import hidden
-        hf = hidden.run(ck, tier, which=('scalar',))
-        if hf and not ck.violations:
-            path = ck.save_replay({'property': 'C14', 'cases': [{'kind': 'hidden-scalar', 'n': f_[2]} for f_ in hf[:6]]})
-            ok, out = core.go_test(path)
-            if not ok and 'MISMATCH' in out:
-                ck.violation('hidden-state', 'Bits depends on hidden state after %s: %s' % (hf[0][0], [l.strip() for l in out.splitlines() if 'MISMATCH' in l][:1]), path)
-            else:
-                ck.inconclusive.append('hidden-state finding %s did not reproduce' % (hf[0],))
+        hidden.embed(ck, tier, ('scalar',), 'C14', 'Bits', observers=['bits'])
     return ck.finish() if own else None
 
 
